@@ -1134,6 +1134,11 @@ def _truth(h, L, R):
 
 
 def gen(tier, rng):
+    if os.environ.get('C02_SECTIONS') == 'names':
+        # dev knob: only sections G-I (names as data, destinations holding fields, chains); the corpus still runs first
+        for c in _gen_names(tier, rng):
+            yield c
+        return
     n = 3 if tier == 'quick' else 4
     seqs = list(_nondecr(n, 3))
     cnt = 0
